@@ -12,7 +12,8 @@ from common import pj
 
 EVQ = "asl_workflow_events"
 RPQ = "asl_workflow_reply_to"
-SWITCH = {"F1": "requestFromTimer", "F2": "replyAckedBeforeJoin", "F4": "nestedJoinAcksEarly"}
+SWITCH = {"F1": "requestFromTimer", "F2": "replyAckedBeforeJoin", "F4": "nestedJoinAcksEarly", "F7": "batchRelaunched",
+          "F8": "childAnswerInProcess", "F9": "attemptFailureForgotten"}
 DELEGATES = ("asl_state_Task_delegate", "asl_state_Parallel_delegate", "asl_state_Map_delegate", "on_timeout")
 
 
@@ -74,101 +75,225 @@ def requested(log):
     return out
 
 
-def skeleton(machine, log, failed):
-    """the skeleton of the (crash-free) run whose broker log is `log`; `failed`: it ended FAILED"""
-    evs = published_events(log)
-    errs = error_replies(log)
-    reqd = requested(log)
-    visits = []       # (ordinal, message id, name, stack as a tuple of (ID, Index), retry count)
-    for i, mid, st in evs:
-        br = st.get("Branch") or []
-        if br and "Index" not in br[-1]:
-            continue                                   # a Map state re-entered for its next batch: not a visit
-        visits.append((i, mid, st.get("Name"), tuple((f.get("ID"), f.get("Index")) for f in br), br))
-    if not visits or visits[0][2] not in ("", None):
-        raise Unsupported("no start event")
-    start_at = machine.get("StartAt")
-
-    def build(prefix):
-        mine = [v for v in visits if v[3] == prefix]
-        items = []
-        seen_fan = {}
-        for n, (i, mid, name, _stack, _br) in enumerate(mine):
-            name = name or start_at
-            st = find_state(machine, name)
-            if st is None:
-                raise Unsupported("state %r not found" % name)
-            ty = st.get("Type")
-            last = n == len(mine) - 1
-            if ty == "Task":
-                if not str(st.get("Resource", "")).startswith("arn:aws:rpcmessage:local::function:"):
-                    raise Unsupported("a Task that is not a function call")
-                if mid not in reqd:
-                    # (its Parameters could not be evaluated, ...: the visit fails in the handler, as a Fail state does)
-                    raise Unsupported("a Task visit that ended without a request")
-                if mid in errs and last and prefix:
-                    # an error at the end of a branch: it fails the fan-out; supported when that fails the execution
-                    if not failed or any(len(v[3]) < len(prefix) and v[0] > i for v in visits):
-                        raise Unsupported("a failing branch whose fan-out is retried / caught / not the end")
-                    items.append("X")
-                else:
-                    items.append("T")
-            elif ty == "Wait":
-                items.append("W")
-            elif ty in ("Parallel", "Map"):
-                k = seen_fan.get(name, 0)
-                seen_fan[name] = k + 1
-                ids = []
-                for v in visits:
-                    if len(v[3]) == len(prefix) + 1 and v[3][:-1] == prefix and v[4][-1].get("Parent") == name and v[3][-1][0] not in ids:
-                        ids.append(v[3][-1][0])
-                if k >= len(ids):
-                    width = 0
-                    if ty == "Parallel" or not last:
-                        raise Unsupported("a fan-out that launched nothing")
-                    branches = []
-                else:
-                    jid = ids[k]
-                    idxs = sorted({v[3][-1][1] for v in visits if len(v[3]) == len(prefix) + 1 and v[3][:-1] == prefix and v[3][-1][0] == jid})
-                    lens = [v[4][-1].get("Length") for v in visits if len(v[3]) == len(prefix) + 1 and v[3][-1][0] == jid]
-                    width = lens[0] if lens and isinstance(lens[0], int) else len(idxs)
-                    if idxs != list(range(width)):
-                        raise Unsupported("a fan-out not all of whose branches were launched")
-                    branches = [build(prefix + ((jid, ix),)) for ix in range(width)]
-                mc = st.get("MaxConcurrency", 0) if ty == "Map" else 0
-                items.append({"par": branches, "mc": mc if isinstance(mc, int) and mc > 0 else 0})
-            elif ty == "Fail" and prefix:
-                # it fails its fan-out from the event's own handler, next to branches that are still running:
-                # a visit the skeletons do not have
-                raise Unsupported("a Fail state inside a branch")
-            elif ty in ("Pass", "Choice", "Succeed", "Fail"):
-                items.append("S")
-            else:
-                raise Unsupported("state type %r" % ty)
-        return items
-    sk = build(())
-    if json.dumps(sk).count('"X"') > 1:
-        raise Unsupported("several failing branches: which one ends the execution depends on what a crash delays")
-    return sk
+def body_of(fr):
+    try:
+        return json.loads(fr["body"].decode("utf8") if isinstance(fr["body"], (bytes, bytearray)) else fr["body"])
+    except Exception:
+        return None
 
 
-def entered_counts(history):
-    import collections
-    c = collections.Counter()
-    for h in history or []:
-        if str(h.get("type", "")).endswith("StateEntered"):
-            c[(h.get("stateEnteredEventDetails") or {}).get("name")] += 1
-    return c
+def error_names(log):
+    """correlation id -> errorType of the requests a worker answered with an error document"""
+    out = {}
+    for fr in log:
+        if fr["op"] == "publish" and fr.get("conn") == "worker" and str(fr.get("routing_key", "")).startswith(RPQ):
+            b = body_of(fr)
+            if isinstance(b, dict) and b.get("errorType"):
+                out[(fr.get("props") or {}).get("correlation_id")] = b["errorType"]
+    return out
 
 
-def path_diverged(skel, ref_history, history):
-    """The skeleton is the path of the crash-free run.  When that run was ended by a failing branch, a crash that keeps
-    that branch from failing lets its siblings go on along paths the crash-free run never took (their own retries,
-    failures, catches): states are entered more often than in the crash-free run.  Such a run is outside the skeleton."""
-    if '"X"' not in json.dumps(skel):
+UNRECOVERABLE = ("States.Runtime", "States.ExecutionTimeout", "States.ExecutionHistoryLimitExceeded", "Task.Terminated")
+FUNCTION = "arn:aws:rpcmessage:local::function:"
+SYNC_CHILD = "arn:aws:states:::states:startExecution.sync"
+
+
+def matches(error, rule):
+    ee = rule.get("ErrorEquals") if isinstance(rule, dict) else None
+    if not isinstance(ee, list):
+        ee = []
+    return error in ee or "States.TaskFailed" in ee or (len(ee) == 1 and ee[0] == "States.ALL")
+
+
+def handles(state, error, retry_count):
+    """does `state` retry (attempts left, given the RetryCount its event carries) or catch `error` — as `handle_error` decides"""
+    if error in UNRECOVERABLE or not isinstance(state, dict):
         return False
-    ref, got = entered_counts(ref_history), entered_counts(history)
-    return any(got[k] > ref.get(k, 0) for k in got)
+    for r in (state.get("Retry") if isinstance(state.get("Retry"), list) else []):
+        if isinstance(r, dict) and matches(error, r):
+            if (retry_count or 0) < r.get("MaxAttempts", 3):
+                return True
+            break
+    for c in (state.get("Catch") if isinstance(state.get("Catch"), list) else []):
+        if isinstance(c, dict) and matches(error, c):
+            return True
+    return False
+
+
+class Visit(object):
+    def __init__(self, ordinal, mid, n, ctx):
+        st = ctx.get("State") or {}
+        self.ord, self.mid, self.n = ordinal, mid, n
+        self.name = st.get("Name")
+        self.branch = st.get("Branch") or []
+        self.rc = st.get("RetryCount") or 0
+        self.execution = (ctx.get("Execution") or {}).get("Id")
+        self.machine = (ctx.get("StateMachine") or {}).get("Id")
+        self.reenter = bool(self.branch) and "Index" not in self.branch[-1]
+        self.stack = tuple((f.get("ID"), f.get("Index")) for f in self.branch)
+        self.cause = None           # (kind, message id) of the handler invocation that published it
+
+
+def skeleton(machines, lab):
+    """The skeleton of the (crash-free) run that went through the Labeller `lab`.  `machines`: state machine ARN -> definition.
+    Every event the engine published is one state visit (the Branch stacks in the event contexts give the tree); what a visit
+    led to is read from the handler invocation that published what followed.  A visit that fails (a Task whose worker answered
+    with an error its state does not handle, a Fail state, a handler that ended the execution FAILED) is followed by
+    {"fail": level | null, "cont": …}: the level is decided from the definition as `handle_error` does, the continuation is the
+    reference run's when that failure is the one it took, otherwise "?"."""
+    log = lab.s.broker.log
+    errs = error_names(log)
+    reqd = requested(log)
+    visits = []
+    notes = []                      # (frame index, execution, status)
+    for n, fr in enumerate(log):
+        if fr["op"] != "publish" or fr.get("conn") == "worker":
+            continue
+        if str(fr.get("routing_key", "")).startswith(EVQ):
+            b = body_of(fr) or {}
+            visits.append(Visit(len(visits), (fr.get("props") or {}).get("message_id"), n, b.get("context") or {}))
+        elif fr.get("exchange") == "asl_workflow_engine":
+            d = (body_of(fr) or {}).get("detail") or {}
+            notes.append((n, d.get("executionArn"), d.get("status")))
+    steps = [st for st in lab.steps if st[0] in ("ev", "tm", "rp")]
+
+    def cause_of(n):
+        for kind, ident, n0, n1 in steps:
+            if n0 <= n < n1:
+                return (kind, ident)
+        return None
+    for v in visits:
+        v.cause = cause_of(v.n)
+    failed_by = {}                  # message id -> executions its handlers ended FAILED
+    for n, ex, status in notes:
+        c = cause_of(n)
+        if c is not None and status == "FAILED":
+            failed_by.setdefault(c[1], set()).add(ex)
+    ended = {ex: status for n, ex, status in notes if status != "RUNNING"}
+    if not visits or visits[0].name not in ("", None):
+        raise Unsupported("no start event")
+
+    class Build(object):
+        def __init__(self, execution, machine):
+            self.machine = machine
+            self.execution = execution
+            self.threads = {}
+            for v in visits:
+                if v.execution == execution and not v.reenter:
+                    self.threads.setdefault(v.stack, []).append(v)
+            self.taken = set()      # message ids of the failing visits whose continuation is the reference run's
+
+        def state(self, v):
+            st = find_state(self.machine, v.name or self.machine.get("StartAt"))
+            if not isinstance(st, dict):
+                raise Unsupported("state %r not found" % v.name)
+            return st
+
+        def fail_level(self, v, error):
+            for k in range(len(v.branch)):
+                fr = v.branch[-1 - k]
+                if handles(find_state(self.machine, fr.get("Parent")), error, fr.get("RetryCount")):
+                    return k
+            return None
+
+        def fail_item(self, v, error, ctx):
+            lvl = self.fail_level(v, error)
+            if lvl is None or lvl >= len(ctx):
+                return [{"fail": None, "cont": []}]
+            following, cause = ctx[lvl]
+            if cause == v.mid and following is not None:
+                self.taken.add(v.mid)
+                return [{"fail": lvl, "cont": following}]
+            return [{"fail": lvl, "cont": ["?"]}]
+
+        def seq(self, prefix, start, ctx):
+            mine = self.threads.get(prefix, [])
+            if start >= len(mine):
+                return []
+            v = mine[start]
+            st = self.state(v)
+            ty = st.get("Type")
+            nxt = mine[start + 1] if start + 1 < len(mine) else None
+            mine_next = nxt is not None and nxt.cause is not None and nxt.cause[1] == v.mid
+
+            def goes_on(item):
+                """the visit is over without an error"""
+                if nxt is not None:
+                    return [item] + self.seq(prefix, start + 1, ctx)
+                if st.get("End") or ty == "Succeed":
+                    return [item]
+                return [item, "?"]          # the reference run never got that far
+            if self.execution in failed_by.get(v.mid, ()) and ty not in ("Parallel", "Map"):
+                # its own handler ended the execution FAILED (whatever the definition says its Retry / Catch would do)
+                item = ({"T": v.rc} if v.rc else "T") if ty == "Task" and v.mid in reqd else ("W" if ty in ("Task", "Wait") else "S")
+                return [item, {"fail": None, "cont": []}]
+            if ty == "Task":
+                res = str(st.get("Resource", ""))
+                if res.startswith(SYNC_CHILD):
+                    kids = [x for x in visits if x.cause == ("tm", v.mid) and x.execution != self.execution and x.name in ("", None)]
+                    if not kids:
+                        return [{"child": ["?"], "rc": v.rc}] + ([] if st.get("End") else ["?"])
+                    kid = kids[0]
+                    km = machines.get(kid.machine)
+                    if km is None:
+                        raise Unsupported("the machine of a child execution is not known")
+                    kb = Build(kid.execution, km)
+                    item = {"child": kb.seq((), 0, []), "rc": v.rc}
+                    error = "States.TaskFailed" if ended.get(kid.execution) == "FAILED" else None
+                elif res.startswith(FUNCTION):
+                    item = {"T": v.rc} if v.rc else "T"
+                    if v.mid not in reqd:
+                        # dropped before its deferred handler ran (its fan-out had failed): what it would have led to is not known
+                        return [item] + ([] if st.get("End") else ["?"])
+                    error = errs.get(v.mid)
+                else:
+                    raise Unsupported("a Task that is neither a function call nor a synchronous child execution")
+                if error is None:
+                    return goes_on(item)
+                if handles(st, error, v.rc):
+                    # its own Retry / Catch: the visit that follows
+                    return [item] + (self.seq(prefix, start + 1, ctx) if mine_next else ["?"])
+                return [item] + self.fail_item(v, error, ctx)
+            if ty == "Wait":
+                return goes_on("W")
+            if ty == "Fail":
+                return ["S"] + self.fail_item(v, st.get("Error", "Unspecified"), ctx)
+            if ty in ("Pass", "Choice", "Succeed"):
+                return goes_on("S")
+            if ty in ("Parallel", "Map"):
+                kids = [x for x in visits if x.cause == ("tm", v.mid) and x.execution == self.execution and not x.reenter
+                        and len(x.stack) == len(prefix) + 1 and x.stack[:-1] == prefix]
+                mc = st.get("MaxConcurrency", 0) if ty == "Map" else 0
+                mc = mc if isinstance(mc, int) and not isinstance(mc, bool) and mc > 0 else 0
+                if not kids:
+                    if self.execution in failed_by.get(v.mid, ()):
+                        return [{"par": [], "mc": 0}, {"fail": None, "cont": []}]      # it failed before launching anything
+                    if ty == "Map" and (mine_next or st.get("End")):
+                        return goes_on({"par": [], "mc": 0})                              # no items
+                    return ["?"]                                                             # dropped before it launched
+                jid = kids[0].stack[-1][0]
+                lens = [x.branch[-1].get("Length") for x in kids]
+                width = lens[0] if lens and isinstance(lens[0], int) else len({x.stack[-1][1] for x in kids})
+                following = self.seq(prefix, start + 1, ctx) if nxt is not None else None
+                inner = [(following, nxt.cause[1] if nxt is not None and nxt.cause is not None else None)] + ctx
+                branches = []
+                before = set(self.taken)
+                for ix in range(width):
+                    th = prefix + ((jid, ix),)
+                    branches.append(self.seq(th, 0, inner) if th in self.threads else ["?"])
+                handled_here = nxt is not None and nxt.cause is not None and nxt.cause[1] in (self.taken - before)
+                item = {"par": branches, "mc": mc}
+                if handled_here or nxt is None:
+                    # the join of this attempt did not complete in the reference run: what follows it is not known
+                    return [item] + ([] if st.get("End") else ["?"])
+                return [item] + following
+            raise Unsupported("state type %r" % ty)
+
+    first = visits[0]
+    m = machines.get(first.machine)
+    if m is None:
+        raise Unsupported("the machine of the execution is not known")
+    return Build(first.execution, m).seq((), 0, [])
 
 
 class Labeller(object):
@@ -178,6 +303,8 @@ class Labeller(object):
         self.s = s
         self.sched = []
         self.unknown = []
+        self.steps = []        # (kind, message / correlation id, first frame, end frame) of every handler invocation
+        self.acked = set()     # message ids of the events acknowledged so far
 
     def _timer_label(self, seq):
         t = [x for x in self.s.wheel.live() if x.seq == seq]
@@ -210,8 +337,17 @@ class Labeller(object):
         inst = s.instances[0]
         was_alive = inst.alive
         ident = inst.conn.ident if (inst.alive and inst.conn is not None) else None
+        acked_before = set(self.acked) if label is not None and label[0] == "tm" else None
         s.do(step)
         new = s.broker.log[n0:]
+        for fr in new:
+            if fr["op"] == "ack" and str(fr.get("queue", "")).startswith(EVQ) and fr.get("message_id"):
+                self.acked.add(fr["message_id"])
+        if acked_before is not None and label[1] in acked_before and was_alive and s.instances[0].alive \
+                and not any(fr["op"] in ("publish", "ack") and fr.get("conn") == ident for fr in new):
+            # the deferred handler of an event that has been acknowledged meanwhile (its fan-out failed: the events held for
+            # it were let go): it finds that out and does nothing — not an operation of the model
+            return
         if step[0] == "deliver" and step[2] != "worker":
             d = [fr for fr in new if fr["op"] == "deliver" and fr.get("conn") == step[2]]
             if d:
@@ -238,6 +374,7 @@ class Labeller(object):
                     cut += 1
         if label[0] == "?":
             self.unknown.append(label[1])
+        self.steps.append((label[0], label[1], n0, len(s.broker.log)))
         self.sched.append((label[0], label[1], cut))
 
     def schedule(self):
@@ -272,32 +409,58 @@ def line(switches, skel, sched):
 
 
 def engine_observation(s, ea, fv, terms, reqs, detail):
-    """what the engine's run looks like in the model's terms"""
+    """what the engine's run looks like in the model's terms.  A pending request is named by the ordinal of the Task event
+    that registered it (a synchronous child's request is keyed by the child's execution ARN: the engine's cancellers say which
+    event that was); one that cannot be traced to an event stays as it is, which no answer of the model matches."""
     om = ordinals(s.broker.log)
-    o = lambda xs: sorted(om[x] for x in xs if x in om)
+    inst = s.instances[0]
+    owner = {}
+    if inst.alive and inst.engine is not None:
+        for event_id, can in inst.engine.task_dispatcher.cancellers.items():
+            owner[can.get("TaskID")] = event_id
+
+    def name(x):
+        if x in om:
+            return om[x]
+        if owner.get(x) in om:
+            return om[owner[x]]
+        return x
+    o = lambda xs: sorted((name(x) for x in xs), key=lambda y: (isinstance(y, str), y))
+    started = set()
+    for n in s.notifications:
+        d = (n["body"] or {}).get("detail", {}) if n["body"] else {}
+        if d.get("executionArn") and d["executionArn"] != ea and d.get("status") == "RUNNING":
+            started.add(d["executionArn"])
     return {"terminal": fv.get("status") in ("SUCCEEDED", "FAILED"),
+            "failed": fv.get("status") == "FAILED",
             "notes": len(terms),
             "resent": o([c for c, n in reqs.items() if n > 1]),
+            "requests": sum(reqs.values()) + len(started),
             "pendingUnsent": o(detail.get("pending_unsent", [])) if detail else [],
             "pendingLost": o(detail.get("pending_reply_consumed", [])) if detail else []}
 
 
 def view(m, between):
-    """the part of the model's observation that is compared: always whether the execution ended and, when it did not, what
-    it waits for; for a crash between two handlers also that nothing was requested twice and one terminal notification"""
-    v = {"terminal": m["terminal"], "pendingUnsent": sorted(m["pendingUnsent"]) if not m["terminal"] else [],
+    """the part of the model's observation that is compared: always whether the execution ended, how (failed or not) and, when
+    it did not, what it waits for; for a crash between two handlers also that nothing was requested twice, how many requests
+    the workers got in all and one terminal notification"""
+    v = {"terminal": m["terminal"], "failed": bool(m.get("failed")) if m["terminal"] else False,
+         "pendingUnsent": sorted(m["pendingUnsent"]) if not m["terminal"] else [],
          "pendingLost": sorted(m["pendingLost"]) if not m["terminal"] else []}
     if between:
         v["resent"] = sorted(m["resent"])
+        v["requests"] = m["requests"]
         v["notes"] = m["notes"] if m["terminal"] else 0
     return v
 
 
 def engine_view(eo, between):
     """the engine's observation in the form of `view`"""
-    v = {"terminal": eo["terminal"], "pendingUnsent": eo["pendingUnsent"] if not eo["terminal"] else [],
+    v = {"terminal": eo["terminal"], "failed": eo["failed"] if eo["terminal"] else False,
+         "pendingUnsent": eo["pendingUnsent"] if not eo["terminal"] else [],
          "pendingLost": eo["pendingLost"] if not eo["terminal"] else []}
     if between:
         v["resent"] = eo["resent"]
+        v["requests"] = eo["requests"]
         v["notes"] = eo["notes"] if eo["terminal"] else 0
     return v
